@@ -7,7 +7,7 @@ from .. import cutfind
 from ..core import call_real
 
 ID = "C08"
-LEAN_MODULE = "CKT.Props.C08Conv"
+LEAN_MODULE = "CKT.Props.C08Wire"
 THEOREMS = [
     # T08.4 at specification level (gate cuts): useless cuts can be removed without changing the subcircuits or raising the overhead
     "CKT.C08Spec.conn_prune", "CKT.C08Spec.cost_prune_le", "CKT.C08Spec.prune_no_useless", "CKT.C08Spec.useless_cuts_removable",
@@ -17,7 +17,13 @@ THEOREMS = [
     # converse (gate cuts only, Props/C08Conv): every state of the tree is a plan prefix (classes = components of the applied gates, widths = component
     # sizes, cost = product of the cut gammas); the returned state is a width-feasible plan; flag => the reported overhead IS the minimum over all such plans
     "CKT.C08Link.child_link", "CKT.C08Link.desc_link", "CKT.C08Link.goal_feasible", "CKT.C08Link.greedy_desc", "CKT.C08Link.optimize_result_is_plan",
-    "CKT.C08Link.optimize_is_minimum"] + ["CKT.C08." + t for t in [
+    "CKT.C08Link.optimize_is_minimum",
+    # T08.4 with wire cuts (Props/C08Wire): a plan = apply / gate cut / cut the wire of the first, second or both operands, per gate; a width-feasible
+    # plan without useless cuts is executed step by step by the model (all five actions, no guard fires) and is a goal of the tree with its overhead;
+    # plans beyond the search's wire budget cost more than the greedy incumbent; flag => reported overhead <= overhead of every such plan
+    "CKT.C08Wire.merge_same", "CKT.C08Wire.fresh_same", "CKT.C08Wire.step_app", "CKT.C08Wire.step_gcut", "CKT.C08Wire.step_left",
+    "CKT.C08Wire.step_right", "CKT.C08Wire.step_both", "CKT.C08Wire.plan_stepW", "CKT.C08Wire.plan_reachableW", "CKT.C08Wire.optimize_min_over_plans",
+    "CKT.C08Wire.cost_ge_pow", "CKT.C08Wire.ceilLog2_spec", "CKT.C08Wire.over_gamma_budget", "CKT.C08Wire.optimize_min_over_plans_any_budget"] + ["CKT.C08." + t for t in [
     "desc_cost", "insertKey_sorted", "put1_spec", "put_spec", "lb_of_head", "lb_of_empty", "updMin_fields", "updUb_fields",
     "good_flag_of_popped", "loop_good", "pass_good", "flag_sound", "actCost_ge_one", "child_cost", "cut_mono", "firstMin_spec",
     "passes_inv", "startSearch_good", "optimize_flag_sound",
@@ -32,8 +38,10 @@ RULE = ("as C07, with emphasis on search limits: gamma limits below, at and abov
         "while a single-wire-cut child does not; compared with the model: flag, overhead (exactly on integer-kappa circuits), cut circuit; distinct by payload")
 ASSUMPTIONS = ["the theorem `optimize_flag_sound` quantifies over the goal states of the model's search tree (per-gate choices that pass the action "
                "guards within the wire budget); for gate-cut plans `C08Link.optimize_min_over_gate_plans` proves that these cover, cost-wise, every "
-               "width-feasible plan of the specification (subcircuits = connected components of the applied gates); for plans with wire cuts this is "
-               "validated by the brute force over all 5^g plans of the independent segment model, not proved",
+               "width-feasible plan of the specification (subcircuits = connected components of the applied gates); for plans with wire cuts "
+               "`C08Wire.optimize_min_over_plans_any_budget` proves it for every width-feasible plan WITHOUT useless cuts (whatever its number of wire "
+               "cuts); that a plan with a useless wire cut is dominated by one without (drop the cut: the two wire segments merge inside one subcircuit) is "
+               "the one step not proved — validated by the brute force over all 5^g plans of the independent segment model",
                "numpy Generator stream, kappa values and heapq as in C07"]
 
 
